@@ -5,7 +5,7 @@ from ..acceptors_r2 import acc_C16, make_running_observer
 from ..explore_r import Scenario, S, mkcfg, bl, sl, bm, sm
 from ..scenarios_r import CL
 
-WIT = ["halt_triggered", "second_halt_of_a_rule", "resumed_after_halt", "halted_step", "halt_running_into_session_end",
+WIT = ["halt_after_multi_fill_round", "halt_triggered", "second_halt_of_a_rule", "resumed_after_halt", "halted_step", "halt_running_into_session_end",
        "order_or_cancel_accepted_during_halt", "fill_below_halt_line", "non_target_market_running", "complete_runs"]
 RULE = ("session shapes x halt lengths x target sets (one or two markets, one or two rules) around base programs that walk the "
         "price across the first and second halt line, with all deviations of schedules and agent programs within the bound "
@@ -19,6 +19,8 @@ def menu(nm):
     for mi in range(nm):
         out += [[bl(mi, 125)], [sl(mi, 125)], [bl(mi, 150)], [sl(mi, 150)], [bl(mi, 100)], [sl(mi, 100)], [bl(mi, 110)], [sl(mi, 110)]]
     out += [[CL], [bm(0)], [sm(0)]]
+    # a sweep: two resting sells at 150 lifted by one buy of volume 2 (one round, two fills, price moves by 2 x rate)
+    out += [[sl(0, 150), sl(0, 150)], [bl(0, 150, 2)], [sl(0, 150, 2)]]
     return out
 
 
@@ -69,6 +71,22 @@ def scenarios(tier):
                 name = "halt:%s-L%d-%s" % (shape, L, setup)
                 sc[name] = Scenario(name, mkcfg(sessions, markets=markets, agents=ags, events=ev), observer=make_running_observer(),
                                     meta=dict(halt_rules=rules))
+    # multi-fill sweep scenarios: one round with two fills crosses the SECOND line at once (deviation 2 x rate);
+    # after the resume a single fill at the same deviation must halt again
+    for L in (1, 2):
+        for nm in (1, 2):
+            mn = menu(nm)
+            k = len(mn)
+            sweep_sell, sweep_buy, sell2 = k - 3, k - 2, k - 1
+            pa = [0, 0, sweep_buy] + [0] * L + [3, 0, 0, 0]
+            pb = [0, sweep_sell, 0] + [0] * L + [4, 0, 0, 0]
+            markets = [dict(name="M%d" % i) for i in range(nm)]
+            ags = [dict(name="A0", menu=mn, program=pa, markets=[m["name"] for m in markets]),
+                   dict(name="A1", menu=mn, program=pb, markets=[m["name"] for m in markets])]
+            ev = {"H": {"class": "TradingHaltRule", "targetMarkets": [m["name"] for m in markets], "triggerChangeRate": 0.25, "haltingTimeLength": L}}
+            name = "halt:sweep-L%d-%dm" % (L, nm)
+            sc[name] = Scenario(name, mkcfg([S(0, 6 + L, True, True, maxNormalOrders=2, events=["H"])], markets=markets, agents=ags, events=ev),
+                                observer=make_running_observer(), meta=dict(halt_rules=[dict(targets=[m["name"] for m in markets], r=0.25, L=L)]))
     return sc
 
 
@@ -81,7 +99,7 @@ def run(tier, seed):
     sc = scenarios(tier)
     run_r("C16", tier, seed, sc, [acc_C16], 1 if tier == "quick" else 2, on_exc, WIT, RULE, res=res, label="halt_grid", split=0)
     deep = {k: v for k, v in sc.items() if k in ("halt:exec7-L2-one_market", "halt:noexec_long_then_exec-L1-two_markets_two_rules",
-                                                  "halt:exec3_exec4-L2-two_markets_both_one_rule")}
+                                                  "halt:exec3_exec4-L2-two_markets_both_one_rule", "halt:sweep-L1-1m")}
     run_r("C16", tier, seed, deep, [acc_C16], 2 if tier == "quick" else 3, on_exc, WIT, RULE, res=res, label="halt_grid_deeper")
     return res
 
